@@ -68,6 +68,34 @@ def showErr : Err → String
   | .badValue k => s!"bad value for {k}"
   | .rejected => "rejected"
 
+def sjn (n : Nat) : Json := .str (toString n)
+
+/-- a dumped value as a flat list of numbers, each value prefixed by the number of entries that follow:
+numbers as exact rationals, strings as code points, `None` inside a rate clip as absent (flag 0).
+Live objects (functions, constraint dicts, child devices) contribute their count only. -/
+def valFlat : Val R Nat → List Json
+  | .none => [sjn 0]
+  | .str s => sjn s.length :: s.toList.map (fun c => sjn c.toNat)
+  | .nat k => [sjn 1, sjn k]
+  | .int k => [sjn 1, rVal (XRat.ofRat (k : Rat))]
+  | .bool b => [sjn 1, sjn (if b then 1 else 0)]
+  | .num x => [sjn 1, rVal x]
+  | .vec v => sjn v.length :: v.map rVal
+  | .ivec v => sjn v.length :: v.map (fun (k : Int) => rVal (XRat.ofRat (k : Rat)))
+  | .mat m => sjn (m.map List.length).sum :: (m.flatMap (fun r => r.map rVal))
+  | .pairNum a b => [sjn 2, rVal a, rVal b]
+  | .pairVec a b => sjn (a.length + b.length) :: ((a ++ b).map rVal)
+  | .table rows => sjn (2 * rows.length) :: rows.flatMap (fun r => [rVal r.1, rVal r.2])
+  | .cbs l => sjn (4 * l.length) :: l.flatMap (fun c => [rVal c.l, rVal c.h, sjn c.s, sjn c.e])
+  | .strs l => sjn (l.map (fun s => s.length + 1)).sum :: l.flatMap (fun s => sjn s.length :: s.toList.map (fun c => sjn c.toNat))
+  | .clip a b =>
+      let one (x : Option R) : List Json := match x with | some v => [sjn 1, rVal v] | none => [sjn 0, sjn 0]
+      sjn 4 :: (one a ++ one b)
+  | .fn _ => [sjn 0]
+  | .cons l => [sjn 1, sjn l.length]
+  | .obj _ => [sjn 0]
+  | .objs l => [sjn 1, sjn l.length]
+
 /-- membership vector of `keys` over `univ`, then the number of keys, then `flag`. -/
 def keyVector (univ keys : List String) (flags : List Nat) : Json :=
   .arr ((univ.map (fun u => if keys.contains u then (1 : Nat) else 0) ++ [keys.length] ++ flags).map
@@ -75,17 +103,17 @@ def keyVector (univ keys : List String) (flags : List Nat) : Json :=
 
 /-- model: construct from the keyword dictionary, dump, rebuild from the dump, dump again.
 Returns the first dump's keys and whether the twin exists and dumps the same keys. -/
-def modelDump (cls : String) (kw : Dict R Nat) : Except String (List String × Bool) :=
+def modelDump (cls : String) (kw : Dict R Nat) : Except String (Dict R Nat × Bool) :=
   let lift {σ : Type} (r : Except Err σ) : Except String σ := match r with
     | .ok x => .ok x
     | .error e => .error (showErr e)
-  let devFamily (sem : DevSem R Nat) : Except String (List String × Bool) := do
+  let devFamily (sem : DevSem R Nat) : Except String (Dict R Nat × Bool) := do
     let d ← lift (Dev.construct sem (fun _ => true) kw)
     let dump := Dev.toDict sem d
     let again := match Dev.fromDict sem (fun _ => true) dump with
       | .ok d' => (Dev.toDict sem d').keys == dump.keys
       | .error _ => false
-    pure (dump.keys, again)
+    pure (dump, again)
   match cls with
   | "Device" | "PVDevice" | "CDevice" | "IDevice" | "IDevice2" | "GDevice" => devFamily semPlain
   | "CDevice2" => devFamily semCDevice2
@@ -97,47 +125,49 @@ def modelDump (cls : String) (kw : Dict R Nat) : Except String (List String × B
       let again := match TDev.construct (fun _ => true) dump with
         | .ok t' => (TDev.toDict t').keys == dump.keys
         | .error _ => false
-      pure (dump.keys, again)
+      pure (dump, again)
   | "WindowDevice" => do
       let t ← lift (WDev.construct (fun _ => true) kw)
       let dump : Dict R Nat := WDev.toDict t
       let again := match WDev.construct (fun _ => true) dump with
         | .ok t' => (WDev.toDict (δ := Nat) t').keys == dump.keys
         | .error _ => false
-      pure (dump.keys, again)
+      pure (dump, again)
   | "DeviceSet" => do
       let t ← lift (SetDev.construct id (fun _ => true) kw)
       let dump := SetDev.toDict t
       let again := match SetDev.construct id (fun _ => true) dump with
         | .ok t' => (SetDev.toDict t').keys == dump.keys
         | .error _ => false
-      pure (dump.keys, again)
+      pure (dump, again)
   | "SubBalancedDeviceSet" => do
       let t ← lift (SubDev.construct id (fun _ => true) kw)
       let dump := SubDev.toDict t
       let again := match SubDev.construct id (fun _ => true) dump with
         | .ok t' => (SubDev.toDict t').keys == dump.keys
         | .error _ => false
-      pure (dump.keys, again)
+      pure (dump, again)
   | "MFDeviceSet" => do
       let t ← lift (MFDev.construct (fun _ => true) kw)
       let dump : Dict R Nat := MFDev.toDict t
       let again := match MFDev.construct (fun _ => true) dump with
         | .ok t' => (MFDev.toDict (α := R) t').keys == dump.keys
         | .error _ => false
-      pure (dump.keys, again)
+      pure (dump, again)
   | "TwoRatioMFDeviceSet" => do
       let t ← lift (TRDev.construct (fun _ => true) kw)
       let dump := TRDev.toDict t
       let again := match TRDev.construct (fun _ => true) dump with
         | .ok t' => (TRDev.toDict t').keys == dump.keys
         | .error _ => false
-      pure (dump.keys, again)
+      pure (dump, again)
   | _ => throw s!"unknown class {cls}"
 
 def serialOp (op : String) (j : Json) : Except String Json := do
   let cls ← (← fld j "cls").getStr?
-  let univ ← (← (← fld j "universe").getArr?).mapM (fun (x : Json) => x.getStr?)
+  let univ ← match fld? j "universe" with
+    | some u => do (← u.getArr?).mapM (fun (x : Json) => x.getStr?)
+    | none => pure #[]
   match op with
   | "serial.tablekeys" => do
       -- keys the generated table derives for a construction with the given extra `**kwargs` keys
@@ -147,8 +177,13 @@ def serialOp (op : String) (j : Json) : Except String Json := do
       | none => throw s!"the generated table derives no dump for {cls}"
   | "serial.modelkeys" => do
       let kw ← jDict (← fld j "kw")
-      let (ks, again) ← modelDump cls kw
-      pure (keyVector univ.toList ks [if again then 1 else 0])
+      let (dump, again) ← modelDump cls kw
+      pure (keyVector univ.toList dump.keys [if again then 1 else 0])
+  | "serial.values" => do
+      -- the VALUES of the model's dump, flattened key by key in dump order (see `valFlat`)
+      let kw ← jDict (← fld j "kw")
+      let (dump, _) ← modelDump cls kw
+      pure (.arr (dump.flatMap (fun e => valFlat e.2)).toArray)
   | _ => throw s!"unknown op {op}"
 
 end DK.Driver
